@@ -100,3 +100,13 @@ package lib
 //@   pure
 //@   ensures len(s) > 0 ==> r == runeat(s, 0) && size == widthat(s, 0)
 //@   ensures len(s) == 0 ==> r == 65533 && size == 0
+
+//@ lib func (b *bytes.Buffer) Reset()
+//@   requires b != nil
+//@   modifies b.$n
+//@   ensures b.$n == 0
+//@ lib func (b *bytes.Buffer) String() (s string)
+//@   requires b != nil
+//@ lib func (b *bytes.Buffer) Len() (n int)
+//@   requires b != nil
+//@   ensures n >= 0
